@@ -27,10 +27,11 @@ class Case:
 
 class Contract:
     def __init__(self, qualname, *, cases, spec=None, requires=None, raises=(), props=(), layer=1,
-                 post=None, inline=(), doc="", invoke=None, axiom_opts=None, key=None, inline_all=False, native_post=None):
+                 post=None, inline=(), doc="", invoke=None, axiom_opts=None, key=None, inline_all=False, native_post=None, stub_only=None):
         self.qualname = qualname
         self.key = key or qualname    # registry key (a function may carry, besides its contract, DIRECT property checks)
         self.inline_all = inline_all  # verify with NO callee replaced by its contract (whole call tree executed)
+        self.stub_only = None if stub_only is None else set(stub_only)   # with inline_all: the only callees still replaced by their contracts
         self.native_post = native_post  # native_post(real result, *native args) -> list of failure texts (native replay of `post`)
         self.tscale = 1.0             # solver time budget multiplier for this contract (set after construction where needed)
         self.cases = cases            # list[Case]; Case.build(engine) -> (args tuple, kwargs dict)
@@ -167,14 +168,16 @@ def shimmed():
 
 
 @contextlib.contextmanager
-def stubbed(except_for=(), nothing=False):
+def stubbed(except_for=(), nothing=False, only=None):
     """replace every contracted function (but `except_for`) by its stub, wherever the exponax modules
     reference it (module globals, class attributes).  nothing=True: no function is replaced (direct checks)"""
-    if nothing:
+    if nothing and not only:
         yield
         return
     saved = []
     skip = set(except_for)
+    if only:
+        skip = {q for q in REGISTRY if q not in only}
     by_obj = {}
     for q, c in REGISTRY.items():
         if q in skip or c.spec is None:
@@ -522,7 +525,7 @@ def verify_contract(c: Contract, *, only_case=None):
                 # divisions whose denominator is non-zero only by a documented assumption on the inputs
                 e.div_assume = True
                 e.assumptions_used.add(f"denominators in {c.qualname} assumed non-zero: {ctx['no_div']}")
-            with shimmed(), stubbed(except_for={c.qualname} | c.inline, nothing=c.inline_all), _ops.scan_rules(*ctx.get("scan_rules", [])):
+            with shimmed(), stubbed(except_for={c.qualname} | c.inline, nothing=c.inline_all, only=c.stub_only), _ops.scan_rules(*ctx.get("scan_rules", [])):
                 try:
                     import io
                     with contextlib.redirect_stdout(io.StringIO()):
@@ -558,7 +561,7 @@ def verify_contract(c: Contract, *, only_case=None):
                         # higher-order result: the returned function is applied to symbolic arguments (under the
                         # shim, with the loop rules of the case) and compared with the spec function's value
                         e.prove(f"{tag}result is callable", callable(res), kind="ensures")
-                        with shimmed(), stubbed(except_for={c.qualname} | c.inline, nothing=c.inline_all), _ops.scan_rules(*ctx.get("apply_scan_rules", [])):
+                        with shimmed(), stubbed(except_for={c.qualname} | c.inline, nothing=c.inline_all, only=c.stub_only), _ops.scan_rules(*ctx.get("apply_scan_rules", [])):
                             res = res(*ctx["apply"])
                         with engine.no_div_guard():
                             exp = exp(*ctx["apply"])
